@@ -271,11 +271,12 @@ def run_case(ctx, case):
         ctx.note('create_refusal', repr(e)[:200])
         return set()
     try:
-        check_invariants(ctx, st, case, -1)
-        for n, op in enumerate(case['ops']):
-            wu.reseed(case['rng'] + n + 1)
-            apply_op(ctx, st, op, case)
-            check_invariants(ctx, st, case, n)
+        with wu.deterministic_gc():
+            check_invariants(ctx, st, case, -1)
+            for n, op in enumerate(case['ops']):
+                wu.reseed(case['rng'] + n + 1)
+                apply_op(ctx, st, op, case)
+                check_invariants(ctx, st, case, n)
         return st.flags
     finally:
         wu.close_wallet(st.w)
